@@ -59,6 +59,8 @@ def is_private_event(ev):
         return ev[1] != "public"
     if k in ("change_table", "change_atom"):
         return ev[1] != "public" or ev[3] != "public"
+    if k == "formula_reuse":
+        return ev[1] != "public" or ev[4] not in ("public", None)
     if k in ("dump", "dump_formula"):
         return ev[2] != "public"
     if k == "load":
